@@ -52,27 +52,58 @@ def variant_of(b):
     return None
 
 
+def variant_through(b):
+    """the enum variant an arm body produces: `Self::X`, `Self::X(..)`, `Self::X{..}`, also wrapped in `Ok(..)` or built by
+    `<expr>.map(Self::X)` / `.map(Self::X).map_err(..)` (a fallible payload conversion followed by the constructor)"""
+    v = variant_of(b)
+    if v:
+        return v
+    if b.get("k") == "Call" and b["func"].get("k") == "Path" and b["func"]["path"].split("::")[-1] in ("Ok", "Some") and b.get("args"):
+        return variant_through(b["args"][0])
+    if b.get("k") == "MethodCall":
+        if b["method"] == "map" and b.get("args") and b["args"][0].get("k") == "Path" and b["args"][0]["path"].split("::")[0] in ("Self",):
+            return b["args"][0]["path"].split("::")[-1]
+        if b["method"] in ("map_err", "or_else", "ok_or", "ok_or_else"):
+            return variant_through(b["recv"])
+    if b.get("k") == "Block" and b.get("stmts"):
+        last = b["stmts"][-1]
+        if last.get("k") == "Expr" or "e" in last:
+            return variant_through(last.get("e") or last)
+    return None
+
+
+def disc_tables(ctx, tyname):
+    """(byte -> variant read table, variant -> byte write table, entity for locations) collected from every method of the type:
+    the tables may live in read_options / write_options themselves or in private helpers they call"""
+    rd, wr = {}, {}
+    ent = None
+    for e in ctx.ast.impls(tyname):
+        for it in e[3]["items"]:
+            if it["k"] != "Fn":
+                continue
+            for m in find_nodes(it["body"], lambda n: n.get("k") == "Match"):
+                for arm in m["arms"]:
+                    p, b = arm["pat"], arm["body"]
+                    if p["k"] == "Lit" and p.get("t") == "int":
+                        v = variant_through(b)
+                        if v:
+                            rd[int(p["v"])] = v
+                            ent = ent or (e, it)
+                    v = p["path"].split("::")[-1] if p["k"] in ("Path", "TupleStruct", "Struct") and p.get("path", "").split("::")[0] in ("Self", tyname) else None
+                    if v and b["k"] in ("Tuple", "Array") and b["elems"] and b["elems"][0]["k"] == "Lit" and b["elems"][0].get("t") == "int":
+                        wr[v] = int(b["elems"][0]["v"])
+    return rd, wr, ent
+
+
 def discriminants(ctx, rep):
     """reader table (byte -> variant) and writer table (variant -> byte) of SmallType / CimMode are inverse"""
     for tyname in ("SmallType", "CimMode"):
-        rd, wr = {}, {}
         rm = ctx.ast.method(tyname, "read_options", trait="BinRead")
         wm = ctx.ast.method(tyname, "write_options", trait="BinWrite")
         if len(rm) != 1 or len(wm) != 1:
             rep.fail("R1.3b", "%s:found" % tyname, "reader/writer of %s not found" % tyname)
             continue
-        for m in find_nodes(rm[0][1]["body"], lambda n: n.get("k") == "Match"):
-            for arm in m["arms"]:
-                if arm["pat"]["k"] == "Lit" and arm["pat"]["t"] == "int":
-                    v = variant_of(arm["body"])
-                    if v:
-                        rd[int(arm["pat"]["v"])] = v
-        for m in find_nodes(wm[0][1]["body"], lambda n: n.get("k") == "Match"):
-            for arm in m["arms"]:
-                p, b = arm["pat"], arm["body"]
-                v = p["path"].split("::")[-1] if p["k"] in ("Path", "TupleStruct", "Struct") else None
-                if v and b["k"] == "Tuple" and b["elems"] and b["elems"][0]["k"] == "Lit":
-                    wr[v] = int(b["elems"][0]["v"])
+        rd, wr, _ent = disc_tables(ctx, tyname)
         loc = ctx.loc(rm[0][0], rm[0][1]["ln"])
         for byte, var in sorted(rd.items()):
             rep.check("R1.3b", "%s:%s" % (tyname, var), wr.get(var) == byte, "%s: byte %d decodes to %s but %s is written as %s" % (tyname, byte, var, var, wr.get(var)), loc,
